@@ -37,6 +37,8 @@ type regOp struct {
 	ReopenErr bool     `json:"reopen_fails,omitempty"`
 	FailNode  string   `json:"fail_node,omitempty"` // reopen: label of the node object told to fail
 	Wrap      int      `json:"wrapped,omitempty"`   // regnode: levels of NodeUnwrapper wrapping
+	SameObj   bool     `json:"same_instance,omitempty"` // regnode: re-register the very node instance that is registered now
+	Foreign   string   `json:"foreign_option,omitempty"` // an option of the OTHER kind (node option on a pipeline call, or vice versa): must be ignored
 }
 
 func (o regOp) String() string {
@@ -52,11 +54,20 @@ func (o regOp) String() string {
 		if o.CloseErr {
 			s += ",close-fails"
 		}
+		if o.SameObj {
+			s += ",same-instance"
+		}
+		if o.Foreign != "" {
+			s += ",+pipeline-option:" + o.Foreign
+		}
 		return s + ")"
 	case "regpipe":
 		s := fmt.Sprintf("RegisterPipeline(%s/%s,%v", o.Typ, o.PID, o.NodeIDs)
 		if o.Policy != "" {
 			s += "," + o.Policy
+		}
+		if o.Foreign != "" {
+			s += ",+node-option:" + o.Foreign
 		}
 		return s + ")"
 	case "rmpipe":
@@ -107,11 +118,12 @@ type regWorld struct {
 	quiet   bool
 	types   []string
 	ids     []string
+	regd    map[string]el.Node // what was passed to the last successful RegisterNode per id
 }
 
 func newRegWorld(sim *simrt.Sim, types, ids []string) *regWorld {
 	b, _ := el.NewBroker()
-	return &regWorld{broker: b, model: newBrokerModel(), h: newFanHarness(sim), types: types, ids: ids}
+	return &regWorld{broker: b, model: newBrokerModel(), h: newFanHarness(sim), types: types, ids: ids, regd: map[string]el.Node{}}
 }
 
 type mismatch struct {
@@ -131,13 +143,24 @@ func (w *regWorld) apply(op regOp) (ms []mismatch, failed bool) {
 		if op.CloseErr {
 			obj.CloseErr = fmt.Errorf("injected close error of %s", obj.Label)
 		}
-		w.objs = append(w.objs, obj)
+		if cur, ok := w.model.nodes[op.ID]; ok && op.SameObj && op.Wrap == 0 && w.regd[op.ID] == el.Node(cur.obj) {
+			obj = cur.obj // the very same instance, possibly with another policy
+		} else {
+			w.objs = append(w.objs, obj)
+		}
 		opts, pol, given := policyOpt(op.Policy, true)
+		if op.Foreign != "" {
+			fo, _, _ := policyOpt(op.Foreign, false) // a pipeline option on a node call
+			opts = append(opts, fo...)
+		}
 		var reg el.Node = obj
 		for i := 0; i < op.Wrap; i++ {
 			reg = &wrapNode{inner: reg} // the Broker must reach Close through Unwrap
 		}
 		err := w.broker.RegisterNode(el.NodeID(op.ID), reg, opts...)
+		if err == nil {
+			w.regd[op.ID] = reg
+		}
 		ok := w.model.RegisterNode(op.ID, obj, pol, given)
 		failed = err != nil
 		if (err == nil) != ok {
@@ -149,6 +172,14 @@ func (w *regWorld) apply(op regOp) (ms []mismatch, failed bool) {
 		}
 	case "regpipe":
 		opts, pol, given := policyOpt(op.Policy, false)
+		if op.Foreign != "" {
+			fo, _, _ := policyOpt(op.Foreign, true) // a node option on a pipeline call
+			if len(opts) > 0 && op.Thr%2 == 0 {
+				opts = append(fo, opts...)
+			} else {
+				opts = append(opts, fo...)
+			}
+		}
 		nids := make([]el.NodeID, len(op.NodeIDs))
 		for i, s := range op.NodeIDs {
 			nids[i] = el.NodeID(s)
@@ -556,9 +587,20 @@ func runRegistrySeqOps(rc *RunCtx, prop string, fixed []regOp) {
 			if (prop == "C06" || prop == "C20") && tp.Choose(4, "wrap") == 0 {
 				o.Wrap = 1 + tp.Choose(2, "wraplevels")
 			}
+			if (prop == "C07" || prop == "C05") && tp.Choose(4, "sameobj") == 0 {
+				o.SameObj = true
+			}
+			if (prop == "C07" || prop == "C05") && tp.Choose(5, "foreign") == 0 {
+				o.Foreign = []string{"allow", "deny"}[tp.Choose(2, "foreignpol")]
+			}
 			return o
 		case 1:
-			return regOp{Kind: "regpipe", Typ: typ, PID: pid, NodeIDs: genPipeNodes(), Policy: genPolicy()}
+			o := regOp{Kind: "regpipe", Typ: typ, PID: pid, NodeIDs: genPipeNodes(), Policy: genPolicy()}
+			if (prop == "C07" || prop == "C05") && tp.Choose(5, "foreign") == 0 {
+				o.Foreign = []string{"allow", "deny"}[tp.Choose(2, "foreignpol")]
+				o.Thr = tp.Choose(2, "foreignfirst")
+			}
+			return o
 		case 2:
 			return regOp{Kind: "rmpipe", Typ: typ, PID: pid}
 		case 3:
